@@ -6,17 +6,16 @@
 (* methods must put exactly these requests on the wire and return exactly      *)
 (* these responses (in-package driver).                                        *)
 (* One state per vector: state k (From <= k <= To) is target number k mod NT,  *)
-(* round k div NT.  All choices are drawn from CRC32(Seed, k, path), so a      *)
-(* vector depends only on (schema, Seed, k).  In round j the flag field of the *)
-(* root constructor takes combination j of the bits its optional fields use,   *)
-(* so 2^bits rounds enumerate every presence pattern.                          *)
-EXTENDS TlSem, Json, FiniteSets
+(* round k div NT.  All choices are drawn from CRC32(Seed, k, path) (TlGen),   *)
+(* so a vector depends only on (schema, Seed, k).  In round j the flag field   *)
+(* of the root constructor takes combination j of the bits its optional        *)
+(* fields use, so 2^bits rounds enumerate every presence pattern.              *)
+EXTENDS TlGen
 CONSTANTS Seed, From, To
 
 S == JsonDeserialize("schema.json")
 VARIABLE k
 
-\* ---------------------------------------------------------------- targets
 Single(i) == Cardinality(CtorsOf(S, S.types[i].result)) = 1
 Targets ==
      [i \in TypeIdx(S) |-> [ty |-> IF Single(i) THEN S.types[i].ctor ELSE S.types[i].result, op |-> "Enc"]]
@@ -25,109 +24,16 @@ Targets ==
   \o [i \in FnIdx(S) |-> [ty |-> S.functions[i].ctor, op |-> "Call"]]
 NT == Len(Targets)
 
-\* ---------------------------------------------------------- choice streams
-B4(n)  == <<n % 256, (n \div 256) % 256, (n \div 65536) % 256, (n \div 16777216) % 128>>
-R(ctx) == Crc32Ieee(ctx)                                       \* 4 pseudo-random bytes
-Pick(ctx, m) == LET c == R(ctx) IN (c[4] + 256 * c[3] + 65536 * c[2]) % m     \* 0..m-1, m <= 2^24
-RECURSIVE RBytes(_, _)
-RBytes(ctx, n) == IF n <= 0 THEN <<>> ELSE R(ctx \o <<n % 256>>) \o RBytes(ctx, n - 4)    \* n multiple of 4
-
-EdgeInt  == <<"0", "1", "-1", "2147483647", "-2147483648", "255", "256", "-256">>
-EdgeLong == <<"0", "1", "-1", "9223372036854775807", "-9223372036854775808", "4294967296", "-4294967297">>
-EdgeLen  == <<0, 1, 2, 3, 4, 5, 7, 8, 252, 253, 254, 255, 256, 257, 258, 259, 260, 1099, 1100>>
-BigLen   == <<65531, 65532, 65535, 65536, 65537>>
-StrLenAt(ctx, dep) ==
-  IF dep >= 3 THEN Pick(ctx \o <<9>>, 12)
-  ELSE LET x == Pick(ctx \o <<9>>, 100) IN
-       IF x < 50 THEN Pick(ctx \o <<10>>, 40)
-       ELSE IF x < 70 THEN Pick(ctx \o <<10>>, 1101)
-       ELSE IF x < 97 \/ dep >= 2 THEN EdgeLen[Pick(ctx \o <<10>>, Len(EdgeLen)) + 1]
-       ELSE BigLen[Pick(ctx \o <<10>>, Len(BigLen)) + 1]
-GenBytes(ctx, n) == LET a == Pick(ctx \o <<11>>, 256)  st == 2 * Pick(ctx \o <<12>>, 128) + 1 IN
-                    [i \in 1..n |-> (a + i * st) % 256]
-VecMax(dep) == IF dep = 0 THEN 5 ELSE IF dep = 1 THEN 3 ELSE 1
-
-UsedBits(d, name) == {d.fields[i].flag.bit : i \in {j \in 1..Len(d.fields) : HasFlag(d.fields[j]) /\ d.fields[j].flag.field = name}}
-RECURSIVE Pow2(_)
-Pow2(n) == IF n = 0 THEN 1 ELSE 2 * Pow2(n - 1)
-\* the mode value: used bits from combination comb (or random when comb < 0), the others random / all 0 / all 1
-ModeVal(ctx, used, comb) ==
-  LET rnd  == BytesToBits(R(ctx \o <<13>>))
-      fill == Pick(ctx \o <<14>>, 4)
-      cmb  == IF comb >= 0 THEN comb ELSE Pick(ctx \o <<15>>, Pow2(Cardinality(used)))
-      bits == [i \in 1..32 |->
-                LET N == 32 - i IN
-                IF N \in used THEN (cmb \div Pow2(Cardinality({u \in used : u < N}))) % 2
-                ELSE IF fill = 0 THEN 0 ELSE IF fill = 1 THEN 1 ELSE rnd[i]]
-  IN IF \A i \in 1..32 : bits[i] = 0 THEN "0" ELSE BitsToDec(bits)
-
-RECURSIVE NthOf(_, _)
-NthOf(set, n) == LET m == CHOOSE x \in set : \A y \in set : x <= y IN IF n = 0 THEN m ELSE NthOf(set \ {m}, n - 1)
-
-RECURSIVE GenTy(_, _, _), GenFields(_, _, _, _, _, _)
-GenFields(d, ctx, dep, comb, i, acc) ==
-  IF i > Len(d.fields) THEN acc
-  ELSE LET f == d.fields[i] IN
-       IF IsTrue(f) \/ ~Present(f, acc) THEN GenFields(d, ctx, dep, comb, i + 1, acc)
-       ELSE LET used == UsedBits(d, f.name)
-                val  == IF ~IsVec(f.ty) /\ f.ty = "#" /\ ~HasFlag(f) /\ used # {}
-                          THEN ModeVal(ctx \o <<i>>, used, comb)
-                          ELSE GenTy(f.ty, ctx \o <<i>>, dep + 1)
-            IN GenFields(d, ctx, dep, comb, i + 1, acc @@ (f.name :> val))
-GenRec(d, ctx, dep, comb) == GenFields(d, ctx, dep, comb, 1, "_" :> d.ctor)
-GenTy(ty, ctx, dep) ==
-  IF IsVec(ty) THEN [i \in 1..Pick(ctx \o <<200>>, VecMax(dep) + 1) |-> GenTy(ty.vector, ctx \o <<100 + i>>, dep + 1)]
-  ELSE CASE ty = "int"  -> IF Pick(ctx \o <<1>>, 3) = 0 THEN EdgeInt[Pick(ctx \o <<2>>, Len(EdgeInt)) + 1]
-                           ELSE B!SDec(BytesToBits(R(ctx \o <<3>>)))
-         [] ty = "long" -> IF Pick(ctx \o <<1>>, 3) = 0 THEN EdgeLong[Pick(ctx \o <<2>>, Len(EdgeLong)) + 1]
-                           ELSE B!SDec(BytesToBits(RBytes(ctx \o <<3>>, 8)))
-         [] ty = "#"    -> ModeVal(ctx, {}, -1)
-         [] ty = "int128" -> BytesToHex(RBytes(ctx \o <<4>>, 16))
-         [] ty = "int256" -> BytesToHex(RBytes(ctx \o <<4>>, 32))
-         [] ty \in {"bytes", "string"} -> BytesToHex(GenBytes(ctx, StrLenAt(ctx, dep)))
-         [] ty = "Bool" -> Pick(ctx \o <<5>>, 2) = 1
-         [] IsCtor(S, ty) -> GenRec(CtorDecl(S, ty), ctx, dep, -1)
-         [] IsResult(S, ty) -> LET cs == CtorsOf(S, ty) IN
-                               GenRec(S.types[NthOf(cs, Pick(ctx \o <<6>>, Cardinality(cs)))], ctx, dep, -1)
-         [] IsFn(S, ty) -> GenRec(FnDecl(S, ty), ctx, dep, -1)
-
-\* root: the constructor's own flag field walks through the combinations
-GenRoot(ty, ctx, round) ==
-  IF ty \in Builtins THEN GenTy(ty, ctx, 0)
-  ELSE IF IsCtor(S, ty) THEN GenRec(CtorDecl(S, ty), ctx, 0, round)
-  ELSE IF IsFn(S, ty) THEN GenRec(FnDecl(S, ty), ctx, 0, round)
-  ELSE LET cs == CtorsOf(S, ty) IN
-       GenRec(S.types[NthOf(cs, round % Cardinality(cs))], ctx, 0, round \div Cardinality(cs))
-
-\* --------------------------------------------------------------- vectors
-ErrDecl == CtorDecl(S, "liteServer.error")
+\* a Call vector additionally carries the scripted adnl.message.answer split around the query id,
+\* which only the client knows: answer = ans_pre ++ query_id ++ ans_suf
 Vec(n) ==
-  LET t     == Targets[(n % NT) + 1]
-      round == n \div NT
-      ctx   == B4(Seed) \o B4(n)
-      v     == GenRoot(t.ty, ctx, round)
-      base  == [vec |-> n, ty |-> t.ty, op |-> t.op, v |-> v]
-  IN
-  IF t.op = "Enc" THEN base @@ [hex |-> BytesToHex(Enc(S, t.ty, v))]
-  ELSE IF t.op = "EncBare" THEN base @@ [hex |-> BytesToHex(EncBare(S, t.ty, v))]
-  ELSE IF t.op = "Fn" THEN base @@ [hex |-> BytesToHex(Enc(S, t.ty, v))]
-  ELSE \* Call: request, and the answer the scripted connection gives: every 4th an error, else a value of the result type
-    LET fd     == FnDecl(S, t.ty)
-        isErr  == round % 4 = 3
-        rv     == IF isErr THEN GenRec(ErrDecl, ctx \o <<250>>, 0, -1) ELSE GenRoot(fd.result, ctx \o <<251>>, round)
-        body   == IF isErr THEN Enc(S, "liteServer.Error", rv) ELSE Enc(S, fd.result, rv)
-        zq     == BytesToHex(ZeroBytes(32))
-        ans    == Enc(S, "adnl.Message", [_ |-> "adnl.message.answer", query_id |-> zq, answer |-> BytesToHex(body)])
-    IN base @@ [hex |-> BytesToHex(Enc(S, t.ty, v)), res_ty |-> fd.result, is_err |-> isErr, resv |-> rv,
-                body |-> BytesToHex(body),
-                ans_pre |-> BytesToHex(SubSeq(ans, 1, 4)), ans_suf |-> BytesToHex(SubSeq(ans, 37, Len(ans)))]
+  LET x == VecOf(S, Targets[(n % NT) + 1], n, B4(Seed) \o B4(n), n \div NT) IN
+  IF x.op # "Call" THEN x
+  ELSE LET ans == Enc(S, "adnl.Message", [_ |-> "adnl.message.answer", query_id |-> BytesToHex(ZeroBytes(32)), answer |-> x.body])
+       IN x @@ [ans_pre |-> BytesToHex(SubSeq(ans, 1, 4)), ans_suf |-> BytesToHex(SubSeq(ans, 37, Len(ans)))]
 
 Init == k = From
 Next == k < To /\ k' = k + 1
 Spec == Init /\ [][Next]_k
-\* the generator's own sanity: what it emits is in the domain and decodes back to itself
-Emit == LET x == Vec(k) IN
-        /\ Valid(S, x.ty, x.v)
-        /\ (x.op = "Enc" => LET d == Dec(S, x.ty, HexToBytes(x.hex)) IN d.ok /\ d.value = x.v /\ d.rest = <<>>)
-        /\ PrintT(<<"VEC", ToJson(x)>>)
+Emit == LET x == Vec(k) IN VecSane(S, x) /\ PrintT(<<"VEC", ToJson(x)>>)
 =============================================================================
